@@ -16,6 +16,7 @@ import (
 	"math"
 	"net/http"
 	"net/http/httptest"
+	"runtime"
 	"sort"
 	"strconv"
 	"strings"
@@ -70,6 +71,8 @@ type world struct {
 	mu      sync.RWMutex
 	blobs   map[string][]byte // fileId -> stored bytes (chunk data or serialized manifest)
 	missing map[string]bool   // lookup fails for these
+	// fetch oracle of the CURRENT ReadAt call of a read sequence: file id -> failLookup / failHTTP / failShort
+	failKind map[string]int
 	srv     *httptest.Server
 	cached  bool // chunk cache answers GetChunk
 	slices  bool // chunk cache answers GetChunkSlice (with exactly the asked slice when it lies inside the blob)
@@ -77,14 +80,23 @@ type world struct {
 }
 
 func newWorld() *world {
-	w := &world{blobs: map[string][]byte{}, missing: map[string]bool{}}
+	w := &world{blobs: map[string][]byte{}, missing: map[string]bool{}, failKind: map[string]int{}}
 	w.srv = httptest.NewServer(http.HandlerFunc(func(rw http.ResponseWriter, r *http.Request) {
 		id := strings.TrimPrefix(r.URL.Path, "/")
 		w.mu.RLock()
 		b, ok := w.blobs[id]
 		w.mu.RUnlock()
-		if !ok {
-			http.Error(rw, "not found", 404)
+		w.mu.RLock()
+		fk := w.failKind[id]
+		w.mu.RUnlock()
+		if !ok || fk == failHTTP || (fk == failShort && len(b) == 0) {
+			http.Error(rw, "not found", 404) // 4xx: not retried by retriedFetchChunkData (5xx is: 13 s of sleeps)
+			return
+		}
+		if fk == failShort { // fewer bytes than the declared Content-Length: the client sees an unexpected EOF
+			rw.Header().Set("Content-Length", strconv.Itoa(len(b)))
+			rw.WriteHeader(200)
+			rw.Write(b[:len(b)/2])
 			return
 		}
 		// like a volume server: whole blob, or the byte range asked for by a Range header
@@ -100,7 +112,87 @@ func (w *world) reset() {
 	w.mu.Lock()
 	w.blobs = map[string][]byte{}
 	w.missing = map[string]bool{}
+	w.failKind = map[string]int{}
 	w.mu.Unlock()
+}
+
+const (
+	failLookup = 1 // the volume lookup returns an error
+	failHTTP   = 2 // the volume server answers 404
+	failShort  = 3 // the volume server sends half of the declared body
+)
+
+// install the fetch oracle of the next ReadAt call
+func (w *world) script(f map[string]int) {
+	w.mu.Lock()
+	w.failKind = f
+	w.mu.Unlock()
+}
+
+// the chunk cache of a read sequence: keeps what SetChunk gives it (memo) or nothing; answers
+// GetChunkSlice (slices) from the chunks it held when the running ReadAt call began: whether a chunk
+// brought in by the running call (or its prefetch goroutine) is already there is a race in ChunkReadAt,
+// and a cache may always answer nil
+type seqCache struct {
+	mu           sync.Mutex
+	memo, slices bool
+	held         map[string][]byte
+	snap         map[string]bool
+}
+
+func (c *seqCache) beginCall() {
+	c.mu.Lock()
+	defer c.mu.Unlock()
+	c.snap = map[string]bool{}
+	for k := range c.held {
+		c.snap[k] = true
+	}
+}
+
+func (c *seqCache) GetChunk(fileId string, minSize uint64) []byte {
+	c.mu.Lock()
+	defer c.mu.Unlock()
+	return c.held[fileId]
+}
+func (c *seqCache) GetChunkSlice(fileId string, offset, length uint64) []byte {
+	c.mu.Lock()
+	defer c.mu.Unlock()
+	b, ok := c.held[fileId]
+	if !c.slices || !ok || !c.snap[fileId] || offset+length > uint64(len(b)) {
+		return nil
+	}
+	return b[offset : offset+length]
+}
+func (c *seqCache) SetChunk(fileId string, data []byte) {
+	c.mu.Lock()
+	defer c.mu.Unlock()
+	if c.memo {
+		c.held[fileId] = data
+	}
+}
+
+// wait until no prefetch goroutine of a ChunkReadAt (go c.readOneWholeChunk(next)) is alive: a prefetch
+// runs under the fetch oracle of the call that started it, and a later call must not join its flight
+var stackBuf = make([]byte, 1<<20)
+func quiesce() {
+	buf := stackBuf
+	for i := 0; ; i++ {
+		n := runtime.Stack(buf, true)
+		if n == len(buf) {
+			panic("goroutine dump does not fit")
+		}
+		if !bytes.Contains(buf[:n], []byte("created by github.com/chrislusf/seaweedfs/weed/filer.(*ChunkReadAt).readFromWholeChunkData")) {
+			return
+		}
+		if i > 20000 {
+			panic("prefetch goroutines do not finish")
+		}
+		if i < 50 {
+			runtime.Gosched()
+		} else {
+			time.Sleep(200 * time.Microsecond)
+		}
+	}
 }
 
 func (w *world) put(id string, b []byte) {
@@ -111,7 +203,7 @@ func (w *world) put(id string, b []byte) {
 
 func (w *world) lookup(fileId string) ([]string, error) {
 	w.mu.RLock()
-	miss := w.missing[fileId]
+	miss := w.missing[fileId] || w.failKind[fileId] == failLookup
 	w.mu.RUnlock()
 	if miss {
 		return nil, errors.New("volume not found")
@@ -280,6 +372,145 @@ type spec struct {
 	slices   bool
 	xwindows []window   // windows whose offset+size exceeds MaxInt64 (views and streams only)
 	csrOps   [][]csrOp  // ChunkStreamReader call sequences
+	seqs     []readSeq  // ReadAt call sequences on ONE ChunkReadAt each, with a fetch oracle per call
+}
+
+// one ReadAt call of a sequence
+type seqOp struct {
+	closeFirst bool           // Close() before the call
+	fail       map[uint64]int // file key -> failLookup / failHTTP / failShort during this call
+	off, size  int64
+	fill       byte
+}
+type readSeq struct {
+	memo, slices bool
+	ops          []seqOp
+}
+
+func leavesOf(gs []*gchunk, acc []*gchunk) []*gchunk {
+	for _, g := range gs {
+		if g.manifest {
+			acc = leavesOf(g.children, acc)
+		} else {
+			acc = append(acc, g)
+		}
+	}
+	return acc
+}
+
+// a call sequence: windows around the chunks, about half of the calls with 1-2 failing chunk fetches,
+// a failed call is usually retried at once with the same window and no failure
+func genSeq(s *spec, r *hx.Rng) readSeq {
+	leaves := leavesOf(s.top, nil)
+	q := readSeq{memo: r.Bool(), slices: r.Bool()}
+	k := r.Range(3, 6)
+	for i := 0; i < k; i++ {
+		var op seqOp
+		if i > 0 && len(q.ops[i-1].fail) > 0 && r.Chance(2, 3) {
+			p := q.ops[i-1]
+			op = seqOp{off: p.off, size: p.size, fill: p.fill}
+		} else {
+			l := leaves[r.Intn(len(leaves))]
+			switch r.Intn(4) {
+			case 0:
+				op.off, op.size = 0, s.fileSize+int64(r.Intn(2))
+			case 1:
+				op.off = int64(r.Intn(int(s.fileSize) + 2))
+				op.size = int64(r.Intn(int(s.fileSize-op.off) + 4))
+			default:
+				op.off, op.size = l.off, int64(l.size)
+				if op.off > 0 && r.Chance(1, 4) {
+					op.off--
+				}
+				if r.Chance(1, 3) {
+					op.size += int64(r.Intn(4))
+				} else if op.size > 1 && r.Chance(1, 4) {
+					op.size--
+				}
+			}
+			if op.size < 0 {
+				op.size = 0
+			}
+			op.fill = byte(r.PickInt([]int{0xEE, 0, 0xFF, 7}))
+			if r.Chance(1, 2) {
+				op.fail = map[uint64]int{}
+				if r.Chance(1, 2) {
+					op.fail[l.key] = r.Range(failLookup, failShort)
+				} else {
+					op.fail[leaves[r.Intn(len(leaves))].key] = r.Range(failLookup, failShort)
+				}
+				if r.Chance(1, 4) {
+					op.fail[leaves[r.Intn(len(leaves))].key] = r.Range(failLookup, failShort)
+				}
+			}
+		}
+		op.closeFirst = i > 0 && r.Chance(1, 10)
+		q.ops = append(q.ops, op)
+	}
+	return q
+}
+
+// run one call sequence on a fresh ChunkReadAt over the views of the whole file
+func runSeq(w *world, full []*filer.ChunkView, fileSize int64, q readSeq, out *hx.Out) string {
+	cache := &seqCache{memo: q.memo, slices: q.slices, held: map[string][]byte{}}
+	reader := filer.NewChunkReaderAtFromClient(w.lookup, full, cache, fileSize)
+	quiesce()
+	var opS, obS []string
+	for i, op := range q.ops {
+		if op.closeFirst {
+			reader.Close()
+		}
+		fk := map[string]int{}
+		var keys []uint64
+		for k, kind := range op.fail {
+			fk[fidOf(k)] = kind
+			keys = append(keys, k)
+			out.Count(fmt.Sprintf("seq:fail-kind-%d", kind), 1)
+		}
+		sort.Slice(keys, func(a, b int) bool { return keys[a] < keys[b] })
+		ks := make([]string, len(keys))
+		for j, k := range keys {
+			ks[j] = n(k)
+		}
+		w.script(fk)
+		cache.beginCall()
+		buf := make([]byte, op.size)
+		for j := range buf {
+			buf[j] = op.fill
+		}
+		got, class, eof := 0, 0, false
+		func() {
+			defer func() {
+				if recover() != nil {
+					class = 2
+				}
+			}()
+			var rerr error
+			got, rerr = reader.ReadAt(buf, op.off)
+			if rerr == io.EOF {
+				eof = true
+			} else if rerr != nil {
+				class = 1
+			}
+		}()
+		quiesce()
+		w.script(map[string]int{})
+		opS = append(opS, fmt.Sprintf("SqOp %s (%s) %s %s %s", hx.Bool(op.closeFirst), lst(ks), ni(op.off), ni(op.size), n(uint64(op.fill))))
+		obS = append(obS, fmt.Sprintf("SqObs (%s) %s %s %s", nl(buf), n(uint64(got)), hx.Bool(eof), n(uint64(class))))
+		out.Count("seq:call", 1)
+		switch class {
+		case 1:
+			out.Count("seq:call-error", 1)
+		case 2:
+			out.Count("seq:call-panic", 1)
+		default:
+			if i > 0 && len(op.fail) == 0 && len(q.ops[i-1].fail) > 0 {
+				out.Count("seq:call-after-failing-call-ok", 1)
+			}
+		}
+	}
+	reader.Close()
+	return fmt.Sprintf("Sq %s %s (%s) (%s)", hx.Bool(q.memo), hx.Bool(q.slices), lst(opS), lst(obS))
 }
 
 type csrOp struct {
@@ -369,7 +600,7 @@ func runCase(w *world, s *spec, out *hx.Out) {
 
 	vis, err := filer.NonOverlappingVisibleIntervals(w.lookup, pbs(s.top), 0, math.MaxInt64)
 	ivis := filer.VerifVisibles(vis)
-	var views, reads, streams, xviews, csrs []string
+	var views, reads, streams, xviews, csrs, seqs []string
 	compacted, garbage, manChunks, manSaved, manVis := "nil", "nil", "nil", "nil", "nil"
 	readall, callKeep, callGarb := "nil", "nil", "nil"
 	if err == nil {
@@ -396,6 +627,10 @@ func runCase(w *world, s *spec, out *hx.Out) {
 			}
 		}
 		reader.Close()
+		for _, q := range s.seqs {
+			seqs = append(seqs, runSeq(w, full, s.fileSize, q, out))
+			out.Count("seq", 1)
+		}
 
 		// StreamContent (the HTTP GET path) on the same windows, and once "to the end"
 		swins := append([]window{}, s.windows...)
@@ -469,17 +704,17 @@ func runCase(w *world, s *spec, out *hx.Out) {
 	topS := coqChunksPb(pbs(s.top))
 	term := fmt.Sprintf("{| k_ms := %s; k_chunks := %s; k_flat := %s; k_fuel := %d; k_store := %s; k_file_size := %s; "+
 		"k_factor := %d; k_next := %s; k_mt := %s; i_vis := %s; i_err := %s; i_views := %s; i_reads := %s; i_streams := %s; "+
-		"i_xviews := %s; i_readall := %s; i_csr := %s; i_call_keep := %s; i_call_garb := %s; "+
+		"i_xviews := %s; i_readall := %s; i_csr := %s; i_seqs := %s; i_call_keep := %s; i_call_garb := %s; "+
 		"i_compacted := %s; i_garbage := %s; i_man_chunks := %s; i_man_saved := %s; i_man_vis := %s |}",
 		lst(ms), topS, lst(flat), depth+s.slack, lst(store), ni(s.fileSize),
 		s.factor, n(s.next), ni(s.mt), coqVis(ivis), hx.Bool(err != nil), lst(views), lst(reads), lst(streams),
-		lst(xviews), readall, lst(csrs), callKeep, callGarb,
+		lst(xviews), readall, lst(csrs), lst(seqs), callKeep, callGarb,
 		compacted, garbage, manChunks, manSaved, manVis)
 	ws := make([]string, len(s.windows))
 	for i, win := range s.windows {
 		ws[i] = fmt.Sprintf("%d+%d/%d", win.off, win.size, win.fill)
 	}
-	canon := fmt.Sprintf("%s|ms=%s|fs=%d|k=%d|w=%s|miss=%d|csr=%v|xw=%v", topS, strings.Join(ms, ";"), s.fileSize, s.factor, strings.Join(ws, ","), len(s.missing), s.csrOps, s.xwindows)
+	canon := fmt.Sprintf("%s|ms=%s|fs=%d|k=%d|w=%s|miss=%d|csr=%v|xw=%v|seq=%v", topS, strings.Join(ms, ";"), s.fileSize, s.factor, strings.Join(ws, ","), len(s.missing), s.csrOps, s.xwindows, s.seqs)
 	out.Count(fmt.Sprintf("leaves:%02d", len(flat)), 1)
 	out.Count(fmt.Sprintf("depth:%d", depth), 1)
 	out.Count(fmt.Sprintf("visibles:%02d", len(ivis)), 1)
@@ -572,6 +807,7 @@ func extras(s *spec, r *hx.Rng, total int64) {
 	b = append(b, csrOp{read: true, n: r.Range(1, 4)})
 	s.csrOps = [][]csrOp{a, b}
 	s.slices = r.Bool()
+	s.seqs = []readSeq{genSeq(s, r)}
 }
 
 // decode exhaustive case g of "m chunks over offsets 0..no-1, sizes 1..ns": chunk i (in mtime order) = digit i
@@ -777,6 +1013,15 @@ func fixedCase(i int, r *hx.Rng) *spec {
 		s.windows = []window{{0, 7, 0xEE}, {0, 12, 0xEE}, {1, 5, 0xEE}, {3, 6, 0xEE}, {2, 3, 0xEE}, {7, 2, 0xEE}, {8, 4, 0xEE}, {9, 3, 0xEE}, {3, 0, 0xEE}}
 		s.csrOps = [][]csrOp{{{read: true, n: 7}}, {{off: 5, whence: io.SeekStart}, {read: true, n: 2}}}
 		s.xwindows = []window{{3, math.MaxInt64, 0}, {6, math.MaxInt64 - 3, 0}}
+		// one chunk was read, the fetch of the other fails (each failure kind once), the call is retried
+		s.seqs = []readSeq{
+			{ops: []seqOp{{off: 5, size: 2, fill: 0xEE}, {off: 0, size: 2, fill: 0xEE, fail: map[uint64]int{1: failLookup}}, {off: 0, size: 2, fill: 0xEE},
+				{off: 0, size: 9, fill: 0xEE, fail: map[uint64]int{2: failHTTP}}, {off: 0, size: 9, fill: 0xEE},
+				{closeFirst: true, off: 4, size: 4, fill: 7, fail: map[uint64]int{2: failShort}}, {off: 4, size: 4, fill: 7}}},
+			{memo: true, slices: true, ops: []seqOp{{off: 0, size: 4, fill: 0xEE, fail: map[uint64]int{1: failLookup}}, {off: 0, size: 4, fill: 0xEE},
+				{off: 0, size: 10, fill: 0xEE, fail: map[uint64]int{1: failHTTP, 2: failShort}}, {off: 1, size: 6, fill: 0, fail: map[uint64]int{2: failHTTP}}, {off: 1, size: 6, fill: 0}}},
+			{memo: true, ops: []seqOp{{off: 0, size: 1, fill: 1}, {off: 5, size: 2, fill: 1, fail: map[uint64]int{2: failLookup}}, {off: 5, size: 2, fill: 1, fail: map[uint64]int{1: failLookup}}}},
+		}
 	case 1: // finding 1: Seek to the end of a file without holes, then Read
 		s.top = []*gchunk{mk(1, 0, 2, 1), mk(2, 2, 2, 2)}
 		s.fileSize = 4
@@ -799,10 +1044,10 @@ func fixedCase(i int, r *hx.Rng) *spec {
 		s.fileSize = 9
 		s.windows = allWindows(9, r)
 	}
+	dataFor(r, s.top, s.data)
 	if i >= 3 {
 		extras(s, r, s.fileSize)
 	}
-	dataFor(r, s.top, s.data)
 	return s
 }
 
@@ -821,7 +1066,7 @@ func main() {
 		e3o, e3s, e4o, e4s = 4, 3, 3, 2
 	}
 	e3, e4 = ipow(e3o*e3s, 3), ipow(e4o*e4s, 4)
-	out.Rule = fmt.Sprintf("shard k (seed mod 1000) emits cases k*per.. of the enumeration: %d fixed cases (0,1,2 = the witnesses of known findings 0,1,2); ALL lists of 1 and 2 chunks over offsets 0..7 x sizes 1..4 (mtime order = enumeration order, list order permuted by the seed), with EVERY window (off,len) up to fileSize+2 for views and reads (quick tier: every window for the 1-chunk lists and for the third of the 2-chunk lists selected by the base seed, the full window and 5 seed-chosen windows for the others); ALL lists of 3 chunks over offsets 0..%d x sizes 1..%d and of 4 chunks over offsets 0..%d x sizes 1..%d with the full window and 5 seed-chosen windows; then random trees: <=12 leaf chunks over offsets 0..40, sizes 0..30, mtimes a permutation or ties with distinct keys, occasionally one file id used twice, up to 2 levels of manifests (hull ranges), shuffled, 1/12 of the manifest cases with an unfetchable manifest; every case: visibles, views, ReadAt into a pre-dirtied buffer, StreamContent on the same windows and once with size MaxInt64, 3 view+stream windows whose offset+size exceeds MaxInt64, ReadAll and two ChunkStreamReader call sequences (Reads to the end; Seeks mixed with Reads) through a real MasterClient with a pre-filled vid map, the chunk cache answering GetChunk / GetChunkSlice in half of the cases each, CompactFileChunks on the whole list and on the non-manifest chunks, a third of the 3-chunk and a quarter of the 4-chunk lists with mtime ties (1,1,2,..) and permuted keys, a quarter of the random manifests with a range wider than the hull, doMaybeManifestize with factor 1..4 and re-resolution. non-trivial = no resolve error and >= 2 visible intervals; distinct = canonical input (chunks, manifests, file size, factor, windows)",
+	out.Rule = fmt.Sprintf("shard k (seed mod 1000) emits cases k*per.. of the enumeration: %d fixed cases (0,1,2 = the witnesses of known findings 0,1,2); ALL lists of 1 and 2 chunks over offsets 0..7 x sizes 1..4 (mtime order = enumeration order, list order permuted by the seed), with EVERY window (off,len) up to fileSize+2 for views and reads (quick tier: every window for the 1-chunk lists and for the third of the 2-chunk lists selected by the base seed, the full window and 5 seed-chosen windows for the others); ALL lists of 3 chunks over offsets 0..%d x sizes 1..%d and of 4 chunks over offsets 0..%d x sizes 1..%d with the full window and 5 seed-chosen windows; then random trees: <=12 leaf chunks over offsets 0..40, sizes 0..30, mtimes a permutation or ties with distinct keys, occasionally one file id used twice, up to 2 levels of manifests (hull ranges), shuffled, 1/12 of the manifest cases with an unfetchable manifest; every case: visibles, views, ReadAt into a pre-dirtied buffer, StreamContent on the same windows and once with size MaxInt64, 3 view+stream windows whose offset+size exceeds MaxInt64, ReadAll and two ChunkStreamReader call sequences (Reads to the end; Seeks mixed with Reads) through a real MasterClient with a pre-filled vid map, the chunk cache answering GetChunk / GetChunkSlice in half of the cases each, CompactFileChunks on the whole list and on the non-manifest chunks, a third of the 3-chunk and a quarter of the 4-chunk lists with mtime ties (1,1,2,..) and permuted keys, a quarter of the random manifests with a range wider than the hull, doMaybeManifestize with factor 1..4 and re-resolution; one ReadAt CALL SEQUENCE (3-6 calls; fixed case 0: three scripted sequences) on ONE ChunkReadAt with its own chunk cache (keeps SetChunk'ed chunks or nothing; answers GetChunkSlice from the chunks held at call start or never) and a fetch oracle per call: about half of the calls have 1-2 chunks whose fetch fails (volume lookup error / HTTP 404 / half of the declared body), a failed call is retried at once with the same window in 2/3 of the cases, Close() before a tenth of the calls; panics are caught and reported; prefetch goroutines are awaited after every call. non-trivial = no resolve error and >= 2 visible intervals; distinct = canonical input (chunks, manifests, file size, factor, windows)",
 		nFixed, e3o-1, e3s, e4o-1, e4s)
 	w := newWorld()
 	defer w.srv.Close()
